@@ -385,6 +385,34 @@ def r2b_infinite_time(ctx):
              "`_check_TIME` no longer maps +/-inf to NaN before its NaN test (nor tests them): a table with an infinite visit time is accepted", construct="infinite TIME")
 
 
+def r5_positional_access(ctx):
+    """Dataset fills row i of its tensors from `data[i]` and labels it `data.iter_to_idx[i]`: an integer key of Data must always mean
+    'the i-th individual' (identifiers can be integers too)."""
+    ctx.rule("C14.R5", "Data[int] is positional, unconditionally; Dataset fills row i from data[i]", 3)
+    g = ctx.ix.func(f"{PKG}.data", "Data.__getitem__", "C14.R5")
+    L = Canon(g.node).lines(False, True)
+    i0 = [i for i, ln in enumerate(L) if ln.startswith("if ") and "isinstance($1, int)" in ln]
+    if not i0:
+        ctx.anchor(False, "C14.R5", g, g.node, "", "integer branch of Data.__getitem__", construct="integer keys")
+    else:
+        test, nxt = L[i0[0]][3:], (L[i0[0] + 1] if i0[0] + 1 < len(L) else "")
+        if test == "isinstance($1, int)" and nxt == "return $0.individuals[$0.iter_to_idx[$1]]" and i0[0] == 0:
+            ctx.ok("C14.R5", g, g.node, "an integer key is a position (first test of the function, no side condition)", construct="integer keys")
+        elif test != "isinstance($1, int)" and test.startswith("isinstance($1, int) and "):
+            ctx.violation("C14.R5", g, g.node, f"an integer key is only taken as a position when `{test[len('isinstance($1, int) and '):][:70]}`: with integer identifiers `data[i]` can return another "
+                          "individual than the i-th one, so the rows of Dataset no longer match Dataset.indices", construct="integer keys")
+        elif i0[0] != 0 and any("$0.individuals[$1]" in ln for ln in L[:i0[0]]):
+            ctx.violation("C14.R5", g, g.node, "a key is looked up as an identifier before integers are taken as positions: with integer identifiers `data[i]` is not the i-th individual", construct="integer keys")
+        else:
+            ctx.anchor(False, "C14.R5", g, g.node, "", "integer branch of Data.__getitem__ (`return self.individuals[self.iter_to_idx[key]]`)", construct="integer keys")
+    ds = f"{PKG}.dataset"
+    for fn, pat in (("Dataset._construct_values", "np.array($1[?i].observations)"), ("Dataset._construct_timepoints", "torch.tensor($1[?i].timepoints)")):
+        f = ctx.ix.func(ds, fn, "C14.R5")
+        Lf = Canon(f.node).lines(True, True)
+        b = unify(Lf, ["for (enumerate(...), (?i, ?n))", f"...{pat}..."])
+        ctx.anchor(b is not None and b["#0"] < b["#1"], "C14.R5", f, f.node, "row i is filled from data[i] (position in the reading order)", f"row filling of {fn}", construct=f"{fn}: row i from data[i]")
+
+
 # validators each concrete reader runs on every path of read() (computed from the code, confirmed by reading, frozen here)
 MUST_RUN = {
     "VisitDataframeDataReader": ["AbstractDataframeDataReader._check_ID", "AbstractDataframeDataReader._clean_index", "AbstractDataframeDataReader._clean_numeric_data",
@@ -453,6 +481,11 @@ def r4_validators_run(ctx):
         cfg = CFG(rd.node)
         loops = [n for n, st in cfg.stmt.items() if isinstance(st, ast.For) and any(isinstance(c, ast.Call) and isinstance(c.func, ast.Attribute) and c.func.attr == "_load_individuals_data" for c in ast.walk(st))]
         for t in targets:
+            tc, tm = t.split(".")
+            tk = ix.find_class(tc)
+            if tk is None or (tk[0], t) not in ix.funcs:
+                ctx.unknown("C14.R4", rd, rd.node, f"{kn}: the validator `{t}` no longer exists under that name (renamed or merged?): cannot decide whether its refusals still run", construct=f"{t} runs", instance=kn)
+                continue
             ok = must(K, rd, t)
             ctx.check(ok, "C14.R4", rd, rd.node, f"{kn}: `{t}` runs on every path of read()",
                       f"{kn}.read() can complete without running `{t}`: the malformed tables it refuses are accepted by this reader", construct=f"{t} runs", instance=kn)
@@ -468,6 +501,7 @@ def rules(ctx):
     r2_refusals(ctx)
     r3_ordering(ctx)
     r2b_infinite_time(ctx)
+    r5_positional_access(ctx)
     r4_validators_run(ctx)
     ctx.trust("pandas copy(deep=True), groupby(sort=False), round, is_unique semantics; bisect")
 
